@@ -18,12 +18,13 @@ type Tape struct {
 	Engine  string                     `json:"engine"`
 	RunSeed uint64                     `json:"run_seed"`
 	NKDC    int                        `json:"nkdc"`
-	Limit   string                     `json:"limit"`                // tcp-only | tcp-first | udp-first
-	Beh     map[string]world.Behaviour `json:"beh"`                  // "udp!0" ... "tcp!2"
-	Phase   string                     `json:"phase"`                // as | tgs | kpasswd (the behaviours then apply to the kpasswd servers)
-	Refuse  int                        `json:"refuse,omitempty"`     // kpasswd: result code with which the server refuses by policy
-	KDCForm string                     `json:"kdc_form,omitempty"`   // how krb5.conf names the KDCs: "" = ipv4:port | v4-noport | v6-port | v6-noport | v6-bare-noport
-	BigTkt  int                        `json:"big_ticket,omitempty"` // tickets carry this many bytes of authorization data: replies beyond the classic UDP sizes
+	Limit   string                     `json:"limit"`                  // tcp-only | tcp-first | udp-first
+	Beh     map[string]world.Behaviour `json:"beh"`                    // "udp!0" ... "tcp!2"
+	Phase   string                     `json:"phase"`                  // as | tgs | kpasswd (the behaviours then apply to the kpasswd servers)
+	Refuse  int                        `json:"refuse,omitempty"`       // kpasswd: result code with which the server refuses by policy
+	KDCForm string                     `json:"kdc_form,omitempty"`     // how krb5.conf names the KDCs: "" = ipv4:port | v4-noport | v6-port | v6-noport | v6-bare-noport
+	Split   string                     `json:"split_realms,omitempty"` // the realm's KDCs are configured in two blocks of the same name: block | section
+	BigTkt  int                        `json:"big_ticket,omitempty"`   // tickets carry this many bytes of authorization data: replies beyond the classic UDP sizes
 }
 
 // the six behaviours named in the property's quantifier
@@ -52,7 +53,7 @@ func Meta() core.Meta {
 		Rule:       "case = one run: a behaviour from {answers, refuses, closes early, silent, KRB-ERROR, response-too-big on UDP} (seeded variants: fragmented TCP replies, close offsets 0/2/4/mid-body, slow-but-answering, connect time-outs, error codes) assigned to every (KDC, transport) endpoint of 1-3 configured KDCs x udp_preference_limit class {1, below the request size, above it} x AS, TGS or change-password exchange x seed of the server order; sweep = complete enumeration of the named behaviours for 1-2 KDCs (quick) and 1-3 KDCs (thorough, 143964 assignments); distinct = distinct (assignment with variants, limit class, phase, outcome); non-trivial = at least one endpoint does not simply answer",
 		SweepQuick: sweepSize(2), SweepThorough: sweepSize(3),
 		SeededQuick: 4000, SeededThorough: 150000,
-		WorkloadProbes: []string{"first-transport-all-dead-second-good", "tcp-reply-fragmented-in-length-prefix", "krb-error-and-good-coexist", "too-big-then-tcp", "nothing-works", "tcp-only-udp-alive", "close-inside-prefix", "kpasswd-exchange", "kpasswd-refused-by-policy", "large-reply", "kdc-named-without-port-or-as-ipv6-address"},
+		WorkloadProbes: []string{"first-transport-all-dead-second-good", "tcp-reply-fragmented-in-length-prefix", "krb-error-and-good-coexist", "too-big-then-tcp", "nothing-works", "tcp-only-udp-alive", "close-inside-prefix", "kpasswd-exchange", "kpasswd-refused-by-policy", "large-reply", "kdc-named-without-port-or-as-ipv6-address", "realm-configured-in-two-blocks"},
 		Components: map[string]string{
 			"client.Login, GetServiceTicket, ASExchange, TGSExchange, sendToKDC, sendKDCTCP/UDP, dialSendTCP/UDP, sendTCP/UDP, checkForKRBError, config.GetKDCs, krb5.conf parser": "real",
 			"net in client/network.go": "shim: simulated transport (connect, segments, datagrams, deadlines on the fake clock)",
@@ -146,6 +147,9 @@ func Gen(caseID, tier string) (json.RawMessage, error) {
 	}
 	if r.Chance(1, 6) {
 		tp.KDCForm = r.Pick("v4-noport", "v6-port", "v6-noport", "v6-bare-noport")
+	}
+	if tp.NKDC > 1 && r.Chance(1, 6) {
+		tp.Split = r.Pick("block", "section")
 	}
 	if tp.Phase != "kpasswd" && r.Chance(1, 6) {
 		// a correct answer may be a large datagram (a ticket with a long PAC): up to 64 KiB fit
